@@ -2,10 +2,21 @@
 import os
 ENV = os.path.join(os.path.dirname(os.path.dirname(os.path.abspath(__file__))), "env")
 
+SPEC = """
+// the getter calls a hand-written Debug impl makes for the first k bit-fields of a unit: one per NAMED bit-field, in order
+pub open spec fn getter_calls(bfs: Seq<Bitfield>, k: int) -> Seq<Option<Tok>>
+    decreases k
+{
+    if k <= 0 { Seq::<Option<Tok>>::empty() }
+    else if bfs[k - 1].s_name().is_some() { getter_calls(bfs, k - 1).push(Some(ident_raw(bfs[k - 1].s_getter_name()))) }
+    else { getter_calls(bfs, k - 1) }
+}
+"""
+
 UNIT = {
     "name": "impl_debug",
     "env": [os.path.join(ENV, "impl_debug_env.rs")],
-    "declared_trusted": {r"external_body": 9},
+    "declared_trusted": {r"external_body": 29},
     "items": [
         {"kind": "fn", "file": "bindgen/codegen/impl_debug.rs", "name": "array_arm", "impl": r"^impl<'a> ImplDebug<'a> for Item$", "ret": "r",
          "closure": {"enclosing": "impl_debug", "anchor": "TypeKind::Array(t, len) => {", "nth": 0,
@@ -13,6 +24,7 @@ UNIT = {
          "subst": [
              ('Some((format!("{name}: Array with length {len}"), vec![]))', "Some(piece_text_only(name, len))", 1, "R4"),
              ("debug_print(name, &quote! { #name_ident })", "debug_print_member(name, name_ident)", 1, "R4"),
+             (r"re:&(\w+)\.into\(\)", r"&\1.item()", 0, "R12 TypeId -> ItemId (if present)"),
              ("self", "self_", 1, "R18 captured self"),
          ],
          "ensures": [
@@ -20,6 +32,27 @@ UNIT = {
              # an array whose element type takes no part in Debug impls is left out (found and repaired F19)
              "!ctx.s_item(t).s_debuggable(ctx) ==> r.is_none()",
              "ctx.s_item(t).s_debuggable(ctx) ==> r.is_some() && (!self_.s_tp_in_array(ctx) ==> prints_member(r.unwrap()))",
+         ]},
+
+        {"kind": "raw", "label": "spec", "text": SPEC},
+        {"kind": "fn", "file": "bindgen/codegen/impl_debug.rs", "name": "impl_debug", "impl": r"^impl ImplDebug<'_> for BitfieldUnit$", "impl_header": "impl BitfieldUnit", "impl_name": "BitfieldUnit", "ret": "r",
+         "subst": [
+             ("Self::Extra", "()", 1, "R12 associated type = ()"),
+             ("Option<(String, Vec<proc_macro2::TokenStream>)>", "Option<(FmtString, Vec<Tok>)>", 1, "R4 opaque string / token types"),
+             ("String::new()", "FmtString::new()", 1, "R4"),
+             ("let mut tokens = vec![];", "let mut tokens: Vec<Tok> = Vec::new();", 1, "R14 type annotation on vec![]"),
+             ("for (i, bitfield) in self.bitfields().iter().enumerate()", "let mut it = EnumCursor::new(self.bitfields()); while it.has_next()", 1, "R13 enumerate"),
+             ('let _ = write!(format_string, "{bitfield_name} : {{:?}}");', "fmt_push_member(&mut format_string, bitfield_name);", 1, "R4 format string text"),
+             (("tokens.push(quote! {", "});"), "tokens.push(q_call_method_on_self({#ARGS}));", 1, "R4q"),
+         ],
+         "loops": {0: {"body_start": "let (i, bitfield) = it.next_pair();", "decreases": "it.all().len() - it.pos()",
+                       "invariant": ["it.all() == self.s_bitfields() && 0 <= it.pos() <= it.all().len()",
+                                     "tokens@.map_values(|t: Tok| calls_method(t)) =~= getter_calls(self.s_bitfields(), it.pos())"],
+                       }},
+         "ensures": [
+             # C08 ("behaves as the derive would", observed by executing fmt()): every named bit-field is printed through ITS OWN getter
+             # (the accessor the bf_accessors unit shows to be emitted under exactly that name)
+             "r.is_some() && r.unwrap().1@.map_values(|t: Tok| calls_method(t)) =~= getter_calls(self.s_bitfields(), self.s_bitfields().len() as int)",
          ]},
     ],
 }
